@@ -273,5 +273,28 @@ def check(ctx):
     ctx.end()
 
 
+def r18_5(ctx):
+    """Log reversal re-maps the project's absence steps; steps the run never reached must be dropped, otherwise a later
+    remove_absence_time_list() pops negative indices (real work steps, or IndexError)."""
+    ctx.begin("R18.5", "reverse_log_information keeps only absence steps inside the run, mirrored", floor=1)
+    g = ctx.repo.method(PROJECT, "reverse_log_information")
+    cases = [([1, 12, 40], 10, [8]), ([0, 9], 10, [0, 9]), ([], 10, []), ([10], 10, [])]
+    for absl, n, exp in cases:
+        I = mk_interp(ctx, havoc_on_call=False)  # the per-object reversals it calls do not own the project's list
+        heap = {("self", "cost_list"): ListV([Poly.const(i) for i in range(n)], True, "list"), ("self", "absence_time_list"): ListV([Poly.const(a) for a in absl], True, "list")}
+        outs = I.run_function(g, heap=heap)
+        for st, ex in outs:
+            v = st.heap.get(("self", "absence_time_list"))
+            got = [int(x.const_value()) for x in v.items] if isinstance(v, ListV) and all(isinstance(x, Poly) and x.is_const() for x in v.items) else None
+            ctx.instance(construct(g, f"absence={absl},steps={n}"), sample={"result": got})
+            if got is None:
+                raise AnalysisError(f"R18.5: cannot evaluate the absence-list re-mapping of reverse_log_information ({v!r})")
+            if got != exp:
+                ctx.violation(construct(g, "absence-remap"), g.loc(), f"log reversal of a {n}-step run with absence steps {absl} leaves absence_time_list = {got} (expected {exp}: "
+                              f"mirrored, and only the steps inside the run)")
+    ctx.end()
+
+
 def run(ctx):
     check(ctx)
+    r18_5(ctx)
